@@ -224,8 +224,12 @@ def mako_run(src, mode, uri, strict=False):
         depth = len(c._buffer_stack)
         cdepth = len(c.caller_stack)
         nextc = c.caller_stack.nextcaller
-        c.write("tail")
-        return ("context", exc, buf.getvalue(), depth, cdepth, nextc, pre)
+        try:
+            c.write("tail")
+            value = buf.getvalue()
+        except Exception as e:
+            value = "CONTEXT-WRITE-FAILED: %r" % (e,)  # e.g. the buffer stack was popped too far
+        return ("context", exc, value, depth, cdepth, nextc, pre)
     raise AssertionError(mode)
 
 
